@@ -180,7 +180,7 @@ func poison(m *stun.Message) {
 func c08(c *core.Ctx) {
 	selfCheckOracles()
 	chainMax := 8
-	c.Section("chains", c.N(8000, 300000), func(_ int64, r *gen.Rand) {
+	c.Section("chains", c.N(8000, 5000000), func(_ int64, r *gen.Rand) {
 		var m *stun.Message
 		switch r.Intn(3) {
 		case 0:
